@@ -103,13 +103,13 @@ func c14Check(gs *GameState, deck []string, hole int, prev *c14Snap, tag string)
 
 // scenario 0: everybody checks/calls to the showdown; 1: everybody all-in before the flop (run-out);
 // 2: everybody but the last seat folds on the flop (early ending); 3: first actor folds before the flop
-func Harness_C14_Hand(n int, hole int, scenario int) {
+func Harness_C14_Hand(n int, hole int, scenario int, slack int) {
 	opts := NewStardardGameOptions()
 	opts.HoleCardsCount = hole
 	if hole == 4 {
 		opts.RequiredHoleCardsCount = 2
 	}
-	total := n*hole + 8 + 2
+	total := n*hole + 8 + slack // slack 0: the deck holds exactly the cards the hand needs
 	deck := make([]string, total)
 	for i := range deck {
 		deck[i] = vSymString("card", 2)
